@@ -9,7 +9,6 @@ import (
 	"strings"
 	"sync"
 	"syscall"
-	"time"
 
 	"verifharness/pkg/h"
 	"verifharness/verifsched"
@@ -65,12 +64,25 @@ func crashChild(dir string, size, n, killAt int) {
 			}
 		}
 	}
-	count := 0
+	count, yields := 0, 0
 	verifsched.OnYield = func(label string) {
+		count++
+		yields++
+		drainLog()
+		if count == killAt {
+			say(fmt.Sprintf("kill-before %s yields=%d", label, yields))
+			syscall.Kill(os.Getpid(), syscall.SIGKILL)
+			select {}
+		}
+	}
+	// kill points inside the write transaction and inside bbolt's Commit: not synchronisation points (the
+	// model's db.Update is one step), so the parent is told how many synchronisation points were passed
+	bbolt.VerifKillPoint = verifsched.KillPoint
+	verifsched.OnKillPoint = func(label string) {
 		count++
 		drainLog()
 		if count == killAt {
-			say(fmt.Sprintf("kill-before %s", label))
+			say(fmt.Sprintf("kill-inside %s yields=%d", label, yields))
 			syscall.Kill(os.Getpid(), syscall.SIGKILL)
 			select {}
 		}
@@ -82,7 +94,7 @@ func crashChild(dir string, size, n, killAt int) {
 		}
 		drainLog()
 	}
-	say(fmt.Sprintf("completed yields=%d", count))
+	say(fmt.Sprintf("completed points=%d yields=%d", count, yields))
 	syscall.Kill(os.Getpid(), syscall.SIGKILL) // no clean close either
 	select {}
 }
@@ -100,6 +112,7 @@ func runCrashCase(c *h.Ctx, r *h.Report, cs crashCase) {
 	out, _ := cmd.Output()
 	var acked, delivered []string
 	killedBefore, completed := "", false
+	killedInside, yieldsPassed := "", -1
 	sc := bufio.NewScanner(strings.NewReader(string(out)))
 	for sc.Scan() {
 		f := strings.Fields(sc.Text())
@@ -113,6 +126,15 @@ func runCrashCase(c *h.Ctx, r *h.Report, cs crashCase) {
 			delivered = append(delivered, f[1])
 		case "kill-before":
 			killedBefore = f[1]
+			for _, x := range f[2:] {
+				fmt.Sscanf(x, "yields=%d", &yieldsPassed)
+			}
+		case "kill-inside":
+			killedInside = f[1]
+			killedBefore = "inside:" + f[1]
+			for _, x := range f[2:] {
+				fmt.Sscanf(x, "yields=%d", &yieldsPassed)
+			}
 		case "completed":
 			completed = true
 		}
@@ -162,7 +184,7 @@ func runCrashCase(c *h.Ctx, r *h.Report, cs crashCase) {
 						return got
 					}
 					got = append(got, u.ID)
-				case <-time.After(150 * time.Millisecond):
+				default: // AddSubscriber replays the history synchronously: nothing more is coming
 					sub.Disconnect()
 					t2.RemoveSubscriber(sub)
 
@@ -243,7 +265,19 @@ func runCrashCase(c *h.Ctx, r *h.Report, cs crashCase) {
 	for i := 1; i <= cs.N; i++ {
 		lines = append(lines, h.Line("sys.op", "dispatch", h.Itoa(i), "0"))
 	}
-	lines = append(lines, h.Line("sys.seqsteps", h.Itoa(cs.KillAt-1)), "sys.restart", "sys.obs")
+	// synchronisation steps the model executes before the crash: a kill before the y-th synchronisation point
+	// = y-1 steps; a kill inside the transaction that follows the y-th point = y-1 steps (nothing committed)
+	// unless bbolt had already written the meta page (= y steps: the transaction is durable)
+	msteps := cs.KillAt - 1
+	if yieldsPassed >= 0 {
+		msteps = yieldsPassed - 1
+		if killedInside == "commit:after-meta" {
+			msteps = yieldsPassed
+		}
+	} else if completed {
+		msteps = 1 << 20
+	}
+	lines = append(lines, h.Line("sys.seqsteps", h.Itoa(msteps)), "sys.restart", "sys.obs")
 	ans := c.Driver.Ask(lines)
 	model := ans[len(ans)-1]
 	var p []string
@@ -267,7 +301,7 @@ func runCrashCase(c *h.Ctx, r *h.Report, cs crashCase) {
 }
 
 func runCrash(c *h.Ctx, r *h.Report) {
-	r.Rule = "the instrumented Bolt transport runs in a child process that publishes u1..uN (one '*' watcher logging deliveries, acknowledgements logged after Dispatch returns) and SIGKILLs itself when it reaches the k-th synchronisation point — every point inside and around every publish (closed test, lock, before the write transaction, before MatchAny, each step of the fan-out, …), retention off/on — and is also killed right after completing (no clean close). The parent reopens the file with bbolt and through NewBoltTransport: everything acknowledged or delivered is stored at its position (or legitimately discarded by retention), the stored keys are a contiguous run, the interrupted publish is wholly present or absent, the restarted hub reports the last stored id, replays exactly the stored history from 'earliest' and appends one more publication after it; and the exact stored content is compared with the model's crash+restart of the same execution. Kill points inside bbolt's commit are not reachable this way (bbolt's atomicity is assumed). Non-trivial = kill inside a publish; distinct by (retention, synchronisation point, some ack before)."
+	r.Rule = "the instrumented Bolt transport runs in a child process that publishes u1..uN (one '*' watcher logging deliveries, acknowledgements logged after Dispatch returns) and SIGKILLs itself when it reaches the k-th point — every synchronisation point inside and around every publish (closed test, lock, before the write transaction, before MatchAny, each step of the fan-out, …) and every kill point inside the write transaction (before the bucket is fetched, the sequence taken, the Put, the retention cleanup, each Delete) and inside bbolt's own Commit (before the dirty pages are written, between the data pages and the meta page, after the meta page; instrumented copy of bbolt's tx.go), retention off/on — and is also killed right after completing (no clean close). The parent reopens the file with bbolt and through NewBoltTransport: everything acknowledged or delivered is stored at its position (or legitimately discarded by retention), the stored keys are a contiguous run, the interrupted publish is wholly present or absent, the restarted hub reports the last stored id, replays exactly the stored history from 'earliest' and appends one more publication after it; and the exact stored content is compared with the model's crash+restart of the same execution. A process kill leaves the page cache intact: torn or reordered writes of a power loss are not simulated (bbolt's on-disk atomicity is assumed). Non-trivial = kill inside a publish; distinct by (retention, synchronisation point, some ack before)."
 	if c.Replay != "" {
 		var rp struct {
 			Case crashCase `json:"case"`
@@ -285,8 +319,10 @@ func runCrash(c *h.Ctx, r *h.Report) {
 	}
 	var cases []crashCase
 	for _, size := range sizes {
-		// a publish is 14 synchronisation points (closed?, t.Lock, db.Update, sl.MatchAny, 5 of s.Dispatch per subscriber)
-		for k := 1; k <= 14*n+2; k++ {
+		// a publish is 14 synchronisation points (closed?, t.Lock, db.Update, sl.MatchAny, 5 of s.Dispatch per
+		// subscriber) plus 7 or more kill points inside the transaction (bucket, sequence, Put, cleanup, each
+		// Delete, three inside bbolt's Commit); beyond the last point the child completes and is killed then
+		for k := 1; k <= 24*n+2; k++ {
 			cases = append(cases, crashCase{Size: size, N: n, KillAt: k})
 		}
 	}
